@@ -211,11 +211,15 @@ def run(ctx):
                 raise core.MachineryFailure(f"Kernel: action {act} never taken (vacuous)")
             ctx.cov["actions_covered"][act] = cov[act][1]
     ctx.cov["exhaustive"] = not r.violated
-    if r.violated or not ctx.quick:
+    if r.violated:
         # random schedules to the end: exhibits a schedule whose RESULT differs from the one-thread execution
-        r2 = ctx.model_check(mc, _cfg(sem), simulate="num=%d" % (300 if r.violated else 3000), depth=500,
-                             name="Kernel[random schedules to completion]")
-        _name_violation(ctx, r2, sks)
+        # (one worker: multi-worker simulation of this TLC build can stall; the verdict above does not depend on this run)
+        try:
+            r2 = ctx.model_check(mc, _cfg(sem), simulate="num=300", depth=500, workers=1, timeout=120,
+                                 name="Kernel[random schedules to completion]")
+            _name_violation(ctx, r2, sks)
+        except core.MachineryFailure as e:
+            ctx.cov["simulation_after_violation"] = str(e)[:200]
     if not r.violated:
         codegen = set()
         for line in r.printed():
@@ -236,7 +240,7 @@ def run(ctx):
     else:
         bad["stores"][0]["idx"][0] = {"var": 0, "off": 1}
     (ctx.tmp / "tlc" / "MCKernelBad.tla").write_text(kernelsk.mc_module("MCKernelBad", [bad]))
-    ctx.model_check("MCKernelBad", _cfg(sem), simulate="num=200", depth=500, expect_violation="ScheduleIndependent",
+    ctx.model_check("MCKernelBad", _cfg(sem), simulate="num=200", depth=500, expect_violation="ScheduleIndependent", workers=1, timeout=120,
                     name="Kernel[canary: accumulator hoisted out of the parallel body]", count=False)
 
     # ---------------------------------------------------------------- 2. real executions in fresh processes
